@@ -1,5 +1,7 @@
 mod c25;
 mod c26;
+mod c27;
+mod c34;
 
 fn main() {
     let args = vcommon::parse_args();
@@ -7,6 +9,8 @@ fn main() {
     match args.id.as_str() {
         "C25" => c25::run(&mut check),
         "C26" => c26::run(&mut check),
+        "C27" => c27::run(&mut check),
+        "C34" => c34::run(&mut check),
         other => vcommon::harness_error(format!("corepbt does not serve {other}")),
     }
     check.finish()
